@@ -47,6 +47,27 @@ def unnone(x):
 # --------------------------------------------------------------------------
 # rendering the spec's parameter list as source text
 
+def dv(d):
+    """world mapping: the spec's default-value identifiers (integers) stand
+    for real Python objects of several types (the description must report
+    and render whatever object the default is)"""
+    k = d % 5
+    if k == 0:
+        return d
+    if k == 1:
+        return (d,)
+    if k == 2:
+        return ()
+    if k == 3:
+        return ('s', d)
+    return 'x%d' % d
+
+
+def dv_sigstr(s):
+    import re
+    return re.sub(r'=(\d+)', lambda m: '=' + repr(dv(int(m.group(1)))), s)
+
+
 def render_params(params):
     parts = []
     has_va = any(p['kind'] == 'va' for p in params)
@@ -62,7 +83,7 @@ def render_params(params):
         elif k == 'kw':
             parts.append('**' + p['name'])
         elif p['dflt'] != -1:
-            parts.append('%s=%d' % (p['name'], p['dflt']))
+            parts.append('%s=%r' % (p['name'], dv(p['dflt'])))
         else:
             parts.append(p['name'])
         if k == 'po' and (i + 1 == n or params[i + 1]['kind'] != 'po'):
@@ -122,7 +143,7 @@ def info_from_inspect(sig):
 def expected_info(e):
     return {'positional': list(e['positional']),
             'required': list(e['required']),
-            'optional': {k: v for k, v in e['optional']},
+            'optional': {k: dv(v) for k, v in e['optional']},
             'varargs': unnone(e['varargs']), 'kwargs': unnone(e['kwargs'])}
 
 
@@ -160,7 +181,8 @@ def replay_c18(case):
         return
     if (code.co_argcount != case['code']['argcount'] or
             code.co_kwonlyargcount != case['code']['kwonly'] or
-            list(f.__defaults__ or ()) != list(case['code']['defaults']) or
+            list(f.__defaults__ or ()) != [dv(x) for x in
+                                           case['code']['defaults']] or
             bool(code.co_flags & inspect.CO_VARARGS) != case['sig']['va'] or
             bool(code.co_flags & inspect.CO_VARKEYWORDS)
             != case['sig']['kw']):
@@ -224,18 +246,19 @@ def replay_c18(case):
             continue
         if got != exp:
             mismatch('getSignatureInfo', exp, got, w)
-        if gstr != case['sigstr']:
-            mismatch('getSignatureString', case['sigstr'], gstr, w)
+        if gstr != dv_sigstr(case['sigstr']):
+            mismatch('getSignatureString', dv_sigstr(case['sigstr']), gstr,
+                     w)
         if gtags != exp_tags:
             mismatch('tagged values', exp_tags, gtags, w)
         if via == 'interface definition':
             try:
                 text = asStructuredText(ns['I'])
             except Exception as e:
-                mismatch('asStructuredText raised', case['sigstr'],
+                mismatch('asStructuredText raised', dv_sigstr(case['sigstr']),
                          'raised %r' % (e,), w)
                 continue
-            line = 'm%s -- doc of m' % case['sigstr']
+            line = 'm%s -- doc of m' % dv_sigstr(case['sigstr'])
             if line not in text:
                 mismatch('asStructuredText', line, text, w)
 
